@@ -167,35 +167,36 @@ def cli_replay_columns(cols):
                 sql = col_sql(c)
                 if c in ('Sha1', 'Sha256', 'Sha512', 'Sha3', 'LineCount', 'IsShebang'):
                     os.remove(os.path.join(d, 'p')) if os.path.exists(os.path.join(d, 'p')) else None   # never open a fifo
-                r = subprocess.run([exe, 'name, ' + sql, 'from', d, 'depth', '1'], env=env, stdout=subprocess.PIPE, stderr=subprocess.PIPE, timeout=20)
-                for line in r.stdout.decode().split('\n')[:-1]:
-                    n, v = line.split('\t')
-                    st = os.lstat(os.path.join(d, n))
-                    if c in TOKEN_COLS:
-                        import hashlib
-                        fp = os.path.join(d, n)
-                        reg = stat.S_ISREG(st.st_mode)
-                        data = open(fp, 'rb').read() if reg else None
-                        k = TOKEN_COLS[c]
-                        if k == 'mode':
-                            want = stat.filemode(st.st_mode)
-                        elif not reg:
-                            continue        # content columns of directories / fifos / links: not specified here
-                        elif k == 'lc':
-                            want = str(data.count(b'\n'))
-                        elif k == 'shebang':
-                            want = 'true' if data[:2] == b'#!' else 'false'
+                for opts in ([], ['symlinks']):         # the entry's own attributes, with and without the `symlinks` root option
+                    r = subprocess.run([exe, 'name, ' + sql, 'from', d, 'depth', '1'] + opts, env=env, stdout=subprocess.PIPE, stderr=subprocess.PIPE, timeout=20)
+                    for line in r.stdout.decode().split('\n')[:-1]:
+                        n, v = line.split('\t')
+                        st = os.lstat(os.path.join(d, n))
+                        if c in TOKEN_COLS:
+                            import hashlib
+                            fp = os.path.join(d, n)
+                            reg = stat.S_ISREG(st.st_mode)
+                            data = open(fp, 'rb').read() if reg else None
+                            k = TOKEN_COLS[c]
+                            if k == 'mode':
+                                want = stat.filemode(st.st_mode)
+                            elif not reg:
+                                continue        # content columns of directories / fifos / links: not specified here
+                            elif k == 'lc':
+                                want = str(data.count(b'\n'))
+                            elif k == 'shebang':
+                                want = 'true' if data[:2] == b'#!' else 'false'
+                            else:
+                                want = hashlib.new(k, data).hexdigest()
+                        elif c in TYPE_COLS:
+                            want = 'true' if (st.st_mode & IFMT) == TYPE_COLS[c] else 'false'
+                        elif c in PERM_COLS:
+                            msk, val = PERM_COLS[c]
+                            want = 'true' if (st.st_mode & msk) == val else 'false'
                         else:
-                            want = hashlib.new(k, data).hexdigest()
-                    elif c in TYPE_COLS:
-                        want = 'true' if (st.st_mode & IFMT) == TYPE_COLS[c] else 'false'
-                    elif c in PERM_COLS:
-                        msk, val = PERM_COLS[c]
-                        want = 'true' if (st.st_mode & msk) == val else 'false'
-                    else:
-                        want = str({'len': st.st_size, 'uid': st.st_uid, 'gid': st.st_gid, 'nlink': st.st_nlink, 'ino': st.st_ino, 'blocks': st.st_blocks, 'dev': st.st_dev}[INT_COLS[c]])
-                    if v != want:
-                        return True, 'entry %r (mode %s): column %s = %r, lstat says %r' % (n, oct(st.st_mode), sql, v, want)
+                            want = str({'len': st.st_size, 'uid': st.st_uid, 'gid': st.st_gid, 'nlink': st.st_nlink, 'ino': st.st_ino, 'blocks': st.st_blocks, 'dev': st.st_dev}[INT_COLS[c]])
+                        if v != want:
+                            return True, 'entry %r (mode %s): column %s = %r, lstat says %r' % (n, oct(st.st_mode), sql, v, want)
             return False, 'columns %r agree with lstat on a file, a setuid file, a hard-linked file, a sticky directory, a fifo and a symlink' % (cols,)
         finally:
             shutil.rmtree(d, ignore_errors=True)
